@@ -93,7 +93,8 @@ def gen_value(rng, depth=0):
     if r < 0.89:
         return tuple(gen_value(rng, depth + 1) for _ in range(rng.randint(0, 3)))
     d = OrderedDict() if rng.random() < 0.5 else {}
-    for k in rng.sample(['k', 'fields', 'name', 'opt', 'x'], rng.randint(0, 3)):
+    # keys are strings like any other: quotes, backslashes and letters beyond ASCII occur in them too
+    for k in rng.sample(['k', 'fields', 'name', 'opt', 'x', "it's", 'back\\slash', 'q"uote', '\u00fcn\u00ef'], rng.randint(0, 3)):
         d[k] = gen_value(rng, depth + 1)
     return d
 
